@@ -21,7 +21,9 @@
 (***************************************************************************)
 EXTENDS Integers, Sequences, FiniteSets, TLC, Json
 
-CONSTANTS MaxLen
+CONSTANTS MaxLen,
+          NoUpdateCb   \* TRUE: the handler was built without an update callback (HandlerBuilder without OnUpdate):
+                       \* published events (all updates here) are taken by the monitor and cause no callback at all
 
 VARIABLES stim, hist, rdy, subdone, box, published, phase, cblog, mdone
 vars == <<stim, hist, rdy, subdone, box, published, phase, cblog, mdone>>
@@ -34,7 +36,9 @@ MInit      == /\ phase = "wait" /\ rdy /\ cblog' = Append(cblog, 0) /\ phase' = 
               /\ UNCHANGED <<stim, hist, rdy, subdone, box, published, mdone>>
 MEarlyStop == /\ phase = "wait" /\ subdone /\ phase' = "done" /\ mdone' = TRUE
               /\ UNCHANGED <<stim, hist, rdy, subdone, box, published, cblog>>
-MTake      == /\ phase = "loop" /\ box # <<>> /\ cblog' = Append(cblog, Head(box)) /\ box' = Tail(box) /\ phase' = "cb"
+MTake      == /\ phase = "loop" /\ box # <<>> /\ box' = Tail(box)
+              /\ IF NoUpdateCb THEN UNCHANGED <<cblog, phase>>
+                               ELSE cblog' = Append(cblog, Head(box)) /\ phase' = "cb"
               /\ UNCHANGED <<stim, hist, rdy, subdone, published, mdone>>
 MStop      == /\ phase = "loop" /\ subdone /\ phase' = "done" /\ mdone' = TRUE
               /\ UNCHANGED <<stim, hist, rdy, subdone, box, published, cblog>>
